@@ -27,7 +27,12 @@ def make_scenarios(ctx, count, flen):
         s = H.Scenario("h%d" % i, meta=dict(frames=frames, own=cfg["mac"], mtu=cfg["mtu"], rxseed=cfg["rxseed"]))
         s.iface(0, **H.iface_kw(cfg)).glob(**G.global_kw(glob))
         s.add("OPT sleep=0")
-        s.frames(0, frames, rng if i % 2 else None, p_gap=0.25, base=True)
+        shadow = None
+        if i % 4 == 1:
+            cfg1, fr1 = G.shadow_iface(rng, cfg, max(5, len(frames) // 2))
+            s.iface(1, **H.iface_kw(cfg1))
+            shadow = (1, fr1)
+        s.frames(0, frames, rng if i % 2 else None, p_gap=0.25, base=True, shadow=shadow)
         scns.append(s)
     return scns
 
@@ -126,3 +131,4 @@ def run(ctx):
     rep.need("quick-after-topology-seen", seen(["tos1", "other-service-seen"]), 50)
     rep.need("discover-delivered-as-unicast", seen(["delivered-as-unicast"]), 50)
     rep.need("clock_gaps_between_frames", rep.counters.get("clock_gaps_between_frames", 0), 200)
+    rep.need("inputs_of_a_second_interface_in_between", rep.counters.get("inputs_of_a_second_interface_in_between", 0), 500)
